@@ -451,6 +451,10 @@ class Nodes:
                 value.year, value.month, value.day,
                 value.hour, value.minute, value.second, value.microsecond,
                 value.tzinfo)
+        elif type(value) is str:  # pylint: disable=unidiomatic-typecheck
+            # Text which spells some other Python literal (None, a tuple, a
+            # set, ...) is but text
+            wrapped_value = PlainScalarString(value)
 
         return wrapped_value
 
